@@ -1,6 +1,8 @@
 """Shared helpers for the check orchestrator: S-expressions (PROTOCOL.md), data encoders,
 version universes, an independent Python reading of SemVer section 11, process runners."""
 import os, subprocess, sys, time, json, random, itertools, re
+sys.path.insert(0, os.path.dirname(os.path.abspath(__file__)))
+import harvest as HV       # constants newly mentioned by the source under test (empty on the baseline tree)
 
 ROOT = os.path.dirname(os.path.dirname(os.path.abspath(__file__)))
 BUILD = os.path.join(ROOT, 'build')
@@ -124,6 +126,7 @@ BUILDS = [(), ('b',), (5, 'x')]
 
 def version_universe(tier, rng):
     nums = [0, 1, 2, MAX] if tier == 'quick' else [0, 1, 2, 3, 10, MAX - 1, MAX]
+    magic = HV.nums(3); nums = nums + magic
     tuples = set()
     for a in nums:
         for b in nums:
@@ -132,10 +135,10 @@ def version_universe(tier, rng):
                 tuples.add((a, b, c))
     tuples = sorted(tuples)
     if tier == 'quick':
-        tuples = [t for t in tuples if rng.random() < 0.5 or t in ((0, 0, 0), (1, 0, 0), (1, 0, 1), (1, 1, 0), (0, 0, 1))]
+        tuples = [t for t in tuples if rng.random() < 0.5 or t in ((0, 0, 0), (1, 0, 0), (1, 0, 1), (1, 1, 0), (0, 0, 1)) or any(x in magic for x in t)]
     out = []
     for t in tuples:
-        tags = TAGS if t in ((1, 0, 0), (0, 0, 0)) else rng.sample(TAGS, 4) + [()]
+        tags = TAGS + HV.tags() if t in ((1, 0, 0), (0, 0, 0)) else rng.sample(TAGS, 4) + [()]
         for tag in tags:
             out.append(V(t[0], t[1], t[2], tag, rng.choice(BUILDS)))
     return out
@@ -143,6 +146,30 @@ def version_universe(tier, rng):
 # the small exhaustive universe for interval algebra and its probe set (neighbours of every member)
 U6 = [V(1, 0, 0, ('a',)), V(1, 0, 0, ('a', 0)), V(1, 0, 0), V(1, 0, 1, (0,)), V(1, 0, 1), V(2, 0, 0)]
 U8 = U6 + [V(1, 0, 0, (0,)), V(2, 0, 0, ('rc', 1))]
+def magic_universes():
+    """small universes around each newly mentioned constant m: versions that differ by m in one component, and the pairs a
+    positional packing with radix m would confuse ((0,m,0) / (1,0,0); (1,0,m) / (1,1,0))"""
+    return [[V(0, m, 0), V(1, 0, 0, ('a',)), V(1, 0, 0), V(1, 0, m), V(1, 1, 0), V(m, 0, 0)] for m in HV.nums(3)]
+_univ_override = None
+def small_universe(tier):
+    if _univ_override is not None: return list(_univ_override)
+    return U6 if tier == 'quick' else U8
+def with_magic(gen):
+    """run a universe-driven generator once more (quick size) over each magic universe; identity on the baseline tree"""
+    def g(tier, rng):
+        global _univ_override
+        cases, info = gen(tier, rng)
+        extra = 0
+        for u in magic_universes():
+            _univ_override = u
+            try:
+                c2 = gen('quick', rng)[0]
+            finally:
+                _univ_override = None
+            extra += len(c2); cases = cases + c2
+        if extra: info = dict(info, magic_universe_cases=extra, magic=HV.magic()['new'])
+        return cases, info
+    return g
 def probe_versions(univ):
     out = set(univ)
     for v in univ:
